@@ -258,13 +258,18 @@ func Run(c *gen.Case, o Opts) ([]any, error) {
 		}
 	}()
 	lines := []any{init}
+	lastRes := ""
 	lines = append(lines, r.Take()...) // transitions caused by construction
 	for i := range c.Calls {
 		call := &c.Calls[i]
 		r.SetScript(scriptOf(call))
+		if call.Follows {
+			call.Predicted = lastRes
+		}
 		lines = append(lines, call)
 		errBefore := errInt.Load()
 		res, pan := DoCall(m, call)
+		lastRes = res
 		r.ReleaseStalls()
 		lines = append(lines, r.Take()...)
 		ret := &RetJ{Ev: "ret", Res: res, Panic: pan,
